@@ -697,49 +697,161 @@ func ruleBufferLimits(c *Ctx, r *Report) {
 		}
 		r.Check(okCallers, rule2, key+":after-limit", c.ipos(u.in), "insert reachable only through Push after both limit tests passed", "a fragment can be stored without passing the reassembly limits (size / count)")
 	}
-	// an insert into fragmentByOffset happens only when the offset is not yet stored, together with the accounting
+	// a fragment is stored under an offset that is not stored yet, or replaces a stored fragment of
+	// that offset only when it is longer; the accounting moves with it: a new fragment adds its
+	// length and one to the count, a replacement adds the difference of the two lengths and leaves
+	// the count alone
+	isFragLen := func(v ssa.Value) bool {
+		_, f, _, ok := fieldLoad(v)
+		return ok && f == "FragmentLength"
+	}
 	for _, u := range ups {
 		if u.f != "fragmentByOffset" {
 			continue
 		}
 		fn := u.fn
 		key := short(fn)
-		var present ssa.Value
+		var present, storedFrag ssa.Value
 		for _, b := range fn.Blocks {
 			for _, in := range b.Instrs {
 				if lk, ok := in.(*ssa.Lookup); ok && lk.CommaOk && isFieldLoad(lk.X, tFr, "fragmentByOffset") {
 					for _, ref := range *lk.Referrers() {
-						if ex, ok := ref.(*ssa.Extract); ok && ex.Index == 1 {
-							present = ex
+						if ex, ok := ref.(*ssa.Extract); ok {
+							if ex.Index == 1 {
+								present = ex
+							} else {
+								storedFrag = ex
+							}
 						}
 					}
 				}
 			}
 		}
 		if present == nil {
-			r.Bad(rule2, key+":insert-once", c.ipos(u.in), "fragments are stored without first testing whether that offset is already stored (duplicates are counted again and the message never completes)")
+			r.Bad(rule2, key+":insert-once", c.ipos(u.in), "fragments are stored without first testing whether that offset is already stored (duplicates are counted again and the limits drift)")
 			continue
 		}
 		w := (&Walk{Fn: fn, Assume: assumeAll(atomAssume{mValue(present), vBool(true)})}).FromEntry()
-		r.Check(!w.Reached[u.in], rule2, key+":insert-once", c.ipos(u.in), "an already stored offset is not stored again", "a fragment offset that is already stored can be stored again")
-		// accounting moves with the insert: same guard
-		for _, cnt := range []struct{ owner, f string }{{tFr, "fragmentsLength"}, {tFB, "totalBufferSize"}, {tFB, "totalFragmentCount"}} {
-			found := false
+		counters := []struct{ owner, f string }{{tFr, "fragmentsLength"}, {tFB, "totalBufferSize"}, {tFB, "totalFragmentCount"}}
+		storesOf := func(owner, f string) []*ssa.Store {
+			var out []*ssa.Store
 			for _, b := range fn.Blocks {
 				for _, in := range b.Instrs {
-					st, ok := in.(*ssa.Store)
-					if !ok {
-						continue
-					}
-					if o, f, _, ok := fieldOfAddr(st.Addr); ok && o == cnt.owner && f == cnt.f {
-						found = true
-						sameGuard := !w.Reached[in] && (in.Block() == u.in.Block() || in.Block().Dominates(u.in.Block()) || u.in.Block().Dominates(in.Block()))
-						bo, isAdd := st.Val.(*ssa.BinOp)
-						r.Check(sameGuard && isAdd && bo.Op == token.ADD, rule2, key+":accounting:"+cnt.f, c.ipos(in), cnt.f+" increases exactly when a new fragment is stored", cnt.f+" is adjusted on a path that does not store a new fragment (a retransmitted fragment is counted again: the completeness test fragmentsLength == handshakeLength never holds, or the limits drift)")
+					if st, ok := in.(*ssa.Store); ok {
+						if o, ff, _, ok := fieldOfAddr(st.Addr); ok && o == owner && ff == f {
+							out = append(out, st)
+						}
 					}
 				}
 			}
-			r.Check(found, rule2, key+":accounting-present:"+cnt.f, c.ipos(u.in), "counter maintained", cnt.f+" is not increased when a fragment is stored")
+			return out
+		}
+		sameRegion := func(in ssa.Instruction) bool {
+			return in.Block() == u.in.Block() || in.Block().Dominates(u.in.Block()) || u.in.Block().Dominates(in.Block())
+		}
+		if !w.Reached[u.in] {
+			// a new offset
+			r.OK(rule2, key+":insert-once", c.ipos(u.in), "this store is unreachable for an offset that is already stored")
+			for _, cnt := range counters {
+				found := false
+				for _, st := range storesOf(cnt.owner, cnt.f) {
+					if !sameRegion(st) {
+						continue
+					}
+					if w.Reached[st] {
+						continue // belongs to the replacement branch
+					}
+					found = true
+					bo, isAdd := st.Val.(*ssa.BinOp)
+					r.Check(isAdd && bo.Op == token.ADD, rule2, key+":accounting:"+cnt.f, c.ipos(st), cnt.f+" increases exactly when a new fragment is stored", cnt.f+" is not increased together with the store of a new fragment")
+				}
+				r.Check(found, rule2, key+":accounting-present:"+cnt.f, c.ipos(u.in), "counter maintained", cnt.f+" is not increased when a fragment is stored")
+			}
+			continue
+		}
+		// a replacement: only by a strictly longer fragment
+		isStored := func(v ssa.Value) bool {
+			_, _, base, ok := fieldLoad(v)
+			if !ok || storedFrag == nil {
+				return false
+			}
+			for _, l := range c.Origins(base, 0) {
+				if l == storedFrag {
+					return true
+				}
+			}
+			for i := 0; i < 4 && base != nil; i++ {
+				if base == storedFrag {
+					return true
+				}
+				switch x := base.(type) {
+				case *ssa.FieldAddr:
+					base = x.X
+				case *ssa.UnOp:
+					base = x.X
+				case *ssa.Field:
+					base = x.X
+				default:
+					base = nil
+				}
+			}
+			return false
+		}
+		compared := 0
+		shorter := func(v ssa.Value) (Val, bool) {
+			if v == present {
+				return vBool(true), true
+			}
+			bo, ok := v.(*ssa.BinOp)
+			if !ok || !isFragLen(bo.X) || !isFragLen(bo.Y) || isStored(bo.X) == isStored(bo.Y) {
+				return unknown, false
+			}
+			newOnLeft := isStored(bo.Y)
+			// the new fragment is strictly shorter than the stored one
+			var val bool
+			switch bo.Op {
+			case token.GTR, token.GEQ:
+				val = !newOnLeft
+			case token.LSS, token.LEQ:
+				val = newOnLeft
+			case token.EQL:
+				val = false
+			case token.NEQ:
+				val = true
+			default:
+				return unknown, false
+			}
+			compared++
+			return vBool(val), true
+		}
+		w2 := (&Walk{Fn: fn, Assume: shorter}).FromEntry()
+		if compared == 0 {
+			r.Bad(rule2, key+":replace-only-longer", c.ipos(u.in), "a fragment replaces the stored fragment of the same offset without their lengths being compared: a retransmitted or empty fragment can displace bytes already received")
+		} else {
+			r.Check(!w2.Reached[u.in], rule2, key+":replace-only-longer", c.ipos(u.in), "a stored fragment is replaced only by a longer one of the same offset", "a fragment that is shorter than the stored fragment of its offset replaces it: bytes already received are lost and the message no longer completes")
+		}
+		for _, cnt := range counters {
+			for _, st := range storesOf(cnt.owner, cnt.f) {
+				if st.Block() != u.in.Block() {
+					continue
+				}
+				if cnt.f == "totalFragmentCount" {
+					r.Bad(rule2, key+":replace-accounting:"+cnt.f, c.ipos(st), "the fragment count is increased when a stored fragment is replaced: the count limit is reached with fewer fragments stored than counted")
+					continue
+				}
+				bo, isAdd := st.Val.(*ssa.BinOp)
+				diff := false
+				if isAdd && bo.Op == token.ADD {
+					for _, side := range []ssa.Value{bo.X, bo.Y} {
+						for _, l := range c.Origins(stripConv(side), 0) {
+							if sb, ok := stripConv(l).(*ssa.BinOp); ok && sb.Op == token.SUB && isFragLen(sb.X) && isFragLen(sb.Y) && !isStored(sb.X) && isStored(sb.Y) {
+								diff = true
+							}
+						}
+					}
+				}
+				r.Check(diff, rule2, key+":replace-accounting:"+cnt.f, c.ipos(st), cnt.f+" grows by the difference of the two lengths", cnt.f+" is not adjusted by (new length - stored length) when a stored fragment is replaced: the size accounting drifts from what is stored")
+			}
 		}
 	}
 	// deletes give the bytes and the count back
